@@ -188,6 +188,14 @@ def mutate(rng, cfg, uses, kind):
         if not c:
             return None
         a, b = rng.choice(c)
+        mine = [x for x in m if x.arg is b]
+        if mine and rng.random() < 0.7:
+            # the excluded argument is used before the excluding one (legal): move its uses behind it
+            m = [x for x in m if x.arg is not b]
+            last = max(i for i, x in enumerate(m) if x.arg is a)
+            pos = rng.randint(last + 1, len(m))
+            m[pos:pos] = mine
+            return m, None
         u = gen.gen_use(rng, b)
         if u is None:
             return None
